@@ -270,12 +270,19 @@ def _check(ctx: Ctx, only=None) -> None:
         fac = fi.params[1]
         big = None
         for n in fi.node.body:
-            if isinstance(n, ast.If) and isinstance(n.test, ast.Compare) and isinstance(n.test.ops[0], ast.Gt) and src(n.test.left) == fac \
-                    and isinstance(n.test.comparators[0], ast.Constant) and n.test.comparators[0].value == 1 \
-                    and any(isinstance(x, ast.For) for x in n.body):
+            # the branch that stretches: an `if` on the factor whose body loops over the messages
+            if isinstance(n, ast.If) and isinstance(n.test, ast.Compare) and fac in {x.id for x in ast.walk(n.test) if isinstance(x, ast.Name)} \
+                    and any(isinstance(x, ast.For) and attr_chain(x.iter) == ["self", "_messages"] for x in n.body):
                 big = n
+                break
         if big is None:
-            raise AnalysisError(f"{q}: `if {fac} > 1:` scaling branch not found")
+            raise AnalysisError(f"{q}: the branch that multiplies the waits (an `if` on `{fac}` looping over the messages) was not found")
+        t_ = big.test
+        okg = len(t_.ops) == 1 and src(t_.left) == fac and isinstance(t_.comparators[0], ast.Constant) and t_.comparators[0].value == 1 \
+            and isinstance(t_.ops[0], (ast.Gt, ast.GtE))
+        ctx.check(okg, "SCALE", f"{q}: the stretching branch is taken for every factor above 1 (`{short(t_)}`)", function=q,
+                  construct="scale does not multiply the waits for every factor greater than 1",
+                  message=f"`{short(t_)}`: some integer factors above 1 fall through to the re-barring path for factors below 1", file=fi.file, node=big)
         lp = next(x for x in big.body if isinstance(x, ast.For))
         for T in p.enum_order("MessageType"):
             tc = TypeCase(p, fi, {lp.target.id}, T)
